@@ -45,6 +45,8 @@ FAMILIES = {
         ('F2o', dict(order='join', nsend=1, nind=2, ncb=2, raising=False, maxq=0, restart=False), 1),
         ('F3', dict(order='join', nsend=1, nind=1, ncb=1, raising=False, maxq=0, restart=True), 1),
         ('F4', dict(order='join', nsend=2, nind=1, ncb=1, raising=False, maxq=1, restart=False, slowcb=True), 1),
+        # one sender, three indications, queue of one: the queue stays full over consecutive refusals
+        ('F7', dict(order='join', nsend=1, nind=3, ncb=1, raising=False, maxq=1, restart=False, slowcb=True), 1),
     ],
     'thorough': [
         ('F1', dict(order='race', nsend=2, nind=1, ncb=1, raising=False, maxq=0, restart=False), 2),
@@ -55,6 +57,8 @@ FAMILIES = {
         ('F4', dict(order='join', nsend=2, nind=1, ncb=1, raising=False, maxq=1, restart=False, slowcb=True), 2),
         ('F5', dict(order='race', nsend=3, nind=1, ncb=1, raising=False, maxq=0, restart=False), 1),
         ('F6', dict(order='join', nsend=2, nind=2, ncb=1, raising=False, maxq=2, restart=False, slowcb=True), 1),
+        ('F7', dict(order='join', nsend=1, nind=3, ncb=1, raising=False, maxq=1, restart=False, slowcb=True), 2),
+        ('F8', dict(order='join', nsend=2, nind=2, ncb=1, raising=False, maxq=1, restart=False, slowcb=True), 1),
     ],
 }
 CAPS = {'quick': 60000, 'thorough': 400000}     # executions per shard sub-tree (cap is reported)
